@@ -509,11 +509,23 @@ pub fn run_c19lib(ctx: &mut Ctx, from: u64, to: u64) {
                     continue;
                 }
                 let mut s1 = Sentence::from_raw(to_string(t)).unwrap();
-                let mut s2 = Sentence::from_raw(to_string(t)).unwrap();
                 p_old.predict(&mut s1);
-                p_new.predict(&mut s2);
+                let before: Vec<i32> = s1.boundary_scores().to_vec();
+                // half of the texts: the very same sentence object is analysed before and after the edit
+                let same_object = t.len() % 2 == 0;
+                let after: Vec<i32> = if same_object {
+                    p_new.predict(&mut s1);
+                    s1.boundary_scores().to_vec()
+                } else {
+                    let mut s2 = Sentence::from_raw(to_string(t)).unwrap();
+                    p_new.predict(&mut s2);
+                    s2.boundary_scores().to_vec()
+                };
+                if after.len() != t.len() - 1 || before.len() != t.len() - 1 {
+                    return Err(("C19:score_vector_length".into(), J::i(after.len())));
+                }
                 for b in 0..t.len() - 1 {
-                    let diff = i64::from(s2.boundary_scores()[b]) - i64::from(s1.boundary_scores()[b]);
+                    let diff = i64::from(after[b]) - i64::from(before[b]);
                     if diff != c_new[b] - c_old[b] {
                         return Err((
                             "C19:score_change_differs_from_dictionary_difference".into(),
